@@ -110,7 +110,17 @@ def replay_frac(chk, model, inputs):
     if out.get('panicked'):
         return d != 0, req, out
     want = min((x * n) // d, MAXU) if d else None
-    return int(out['out']) != want, req, dict(out, expected=str(want))
+    if int(out['out']) != want:
+        return True, req, dict(out, expected=str(want))
+    # fixed candidates next to the model's values: shares of large amounts whose numerator and denominator have no common
+    # factor (where machine-integer rational arithmetic overflows although the share itself is below 1)
+    for x2, n2, d2 in (((1 << 100) + 1, (1 << 70) + 1, (1 << 71) + 1), ((1 << 127) - 1, (1 << 64) + 1, (1 << 65) + 3), ((1 << 90) + 7, 3, 7)):
+        req2 = {'kind': 'multiply_frac', 'x': str(x2), 'n': str(n2), 'd': str(d2)}
+        out2 = harness.run_replay([req2], 'dev')[0]
+        want2 = min((x2 * n2) // d2, MAXU)
+        if 'error' not in out2 and (out2.get('panicked') or int(out2['out']) != want2):
+            return True, req2, dict(out2, expected=str(want2))
+    return False, req, dict(out, expected=str(want))
 
 
 # ---------------------------------------------------------------------------------------------------------------
